@@ -626,7 +626,7 @@ def run_c13(run, thorough=False):
     cases = list(gen_asm.mutations(rnd, n)) + list(gen_asm.random_lines(rnd, n // 2)) + list(gen_asm.random_programs(rnd, n // 2, valid_bias=0.7)) + \
         list(gen_asm.pcr_interacting(rnd, 60 if not thorough else 1200)) + list(gen_asm.include_cases(rnd, 10 if not thorough else 100)) + \
         [c for c in gen_asm.branch_sweep(rnd, thorough) if c["tag"].startswith("pcr")][:: (1 if thorough else 3)] + \
-        list(gen_asm.data_cases(rnd, 80))
+        list(gen_asm.data_cases(rnd, 80)) + list(gen_asm.stress_cases(rnd))
     # structured stress: one or more label,PCR operands at every distance around the 8/16-bit boundary
     for n_ in range(118, 132):
         for mn in ("LDA", "LDY"):
